@@ -475,7 +475,15 @@ func (a *actor) do(st *Step, idx int, call, method, path string, hdr map[string]
 		bsum = &s
 	}
 	t0 := time.Now()
-	a.h.record(Event{Actor: a.id, Proc: a.procName, Kind: "issue", Call: call, Step: idx, Tag: st.Tag, ReqID: reqID, Path: path, Body: bsum, Headers: flatHdr(req.Header)})
+	var extra map[string]any
+	if call == "ext.register" && st.BodyMode != "lit" {
+		ev := st.Events
+		if ev == nil {
+			ev = []string{}
+		}
+		extra = map[string]any{"events": ev}
+	}
+	a.h.record(Event{Actor: a.id, Proc: a.procName, Kind: "issue", Call: call, Step: idx, Tag: st.Tag, ReqID: reqID, Path: path, Body: bsum, Headers: flatHdr(req.Header), Extra: extra})
 	if st.SigParked != "" && parkWho != "" {
 		go func() {
 			tick := time.NewTicker(200 * time.Microsecond)
